@@ -11,7 +11,7 @@ Range(s) == {s[i] : i \in 1..Len(s)}
 Bound == 7500   \* ms: the proxy's 5 s KDC timeout plus slack
 
 \* e: [method, len, body, realm, kdcs: <<[tcp, udp]...>>, status (-1 = no HTTP response), ms, replyOK, sentOK, anySent, panicked]
-Replies(e) == \E i \in 1..Len(e.kdcs) : e.kdcs[i].tcp \in {"reply-close", "reply-keepopen"} \/ e.kdcs[i].udp = "reply"
+Replies(e) == Framed(e.sizecls) /\ \E i \in 1..Len(e.kdcs) : e.kdcs[i].tcp \in {"reply-close", "reply-keepopen"} \/ e.kdcs[i].udp = "reply"
 Bad(e) ==
   LET want == Validate(e.method, e.len, e.body)
       known == e.realm \in {"default", "configured"} IN
@@ -24,11 +24,11 @@ Bad(e) ==
   \cup (IF want = 0 /\ (~known \/ ~Replies(e)) /\ e.status = 200 /\ ~e.partialOnly THEN {"G_C20_NoReplyNoSuccess"} ELSE {})
   \cup (IF e.panicked THEN {"G_C10_NoPanic"} ELSE {})
 TInit == /\ l = 1 /\ viol = {} /\ cover = {}
-         /\ req = [method |-> "POST", len |-> "ok", body |-> "valid", realm |-> "default"]
+         /\ req = [method |-> "POST", len |-> "ok", body |-> "valid", realm |-> "default", size |-> "s1400"]
          /\ beh = [k \in KDCs |-> "reply"] /\ got = [k \in KDCs |-> "nothing"] /\ answered = <<>> /\ clock = 0 /\ resp = NoResp
 TNext == /\ l <= Len(TraceLog)
          /\ viol' = viol \cup {<<l, g, Line.cls, Line.target>> : g \in Bad(Line)}
-         /\ cover' = cover \cup {<<Line.cls, Line.target, Line.status>>}
+         /\ cover' = cover \cup {<<Line.cls, Line.target, Line.status>>, <<"size", Line.sizecls, Line.status>>}
          /\ l' = l + 1 /\ UNCHANGED <<req, beh, got, answered, clock, resp>>
 TSpec == TInit /\ [][TNext]_tvars
 AtEnd == l = Len(TraceLog) + 1 =>
